@@ -15,7 +15,7 @@ from ..sched import enumerate_schedules, run_scheduled
 ID = "C02"
 LEVEL = "exploration"
 BUDGET = {"quick": 1200, "thorough": 8000}
-SHARDS = {"quick": 8, "thorough": 16}
+SHARDS = {"quick": 16, "thorough": 16}
 SCHED_CAP = {"quick": 24, "thorough": 120}
 RULE = (
     "Hypothesis-generated programs: gate-free DAGs and control-flow programs (1-3 if/else or route gates incl. multi-target, fallback, "
